@@ -93,13 +93,28 @@ class SolverSuite:
         return core.short_hash({k: (v["objective"], v.get("lower"), v.get("upper"), v["params"]["r"]) for k, v in plan["actors"].items()})
 
 
+DEFAULT_PARAMS = {"r": 2.0, "eps": 0.01, "itersLimit": 20000, "evolventDensity": 10, "refineSolution": False}
+
+
 def _maybe_company(rng, plan_actors, ops, max_iters=40):
-    """With some probability add a second solver whose steps are interleaved (top level)."""
+    """With some probability add a second solver whose steps are interleaved (top level).  Sometimes the two solvers
+    are given ONE SolverParameters object (explicitly, or the library's default argument), as user code does."""
     if rng.random() < 0.2:
-        plan_actors["S1"] = G.gen_actor(rng, max_iters=max_iters, shipped_prob=0.0, refine=False)
-        n = plan_actors["S1"]["params"]["itersLimit"]
-        ops2 = G.gen_single_ops(rng, "S1", rng.randint(0, min(n, 20)), with_solve=True)
+        s0 = plan_actors["S0"]
+        dims = (1, 2, 3, 4, 5)
+        plan_actors["S1"] = G.gen_actor(rng, max_iters=max_iters, shipped_prob=0.0, refine=False, dims=dims)
+        s1 = plan_actors["S1"]
+        u = rng.random()
+        if u < 0.3 and s0["params"].get("evolventDensity", 10) == 10:
+            s1["params"] = dict(s0["params"])
+            s0["params_obj"] = s1["params_obj"] = "shared:P"
+        n = s1["params"]["itersLimit"]
+        ops2 = G.gen_single_ops(rng, "S1", rng.randint(0, min(n, 20)), with_solve=rng.random() < 0.8)
+        if rng.random() < 0.1:
+            s1["holder"] = "new"
         return interleave(rng, [ops, ops2])
+    if rng.random() < 0.04:
+        plan_actors["S0"]["holder"] = "new"
     return ops
 
 
@@ -137,8 +152,26 @@ class C02(SolverSuite):
             for k in G.gen_batches(rng, rng.randint(1, 6)):
                 ops.append({"a": "S0", "op": "iterate", "k": k})
         actors = {"S0": spec}
+        ops = G.sprinkle_evq(rng, ops, "S0", spec)
         ops = _maybe_company(rng, actors, ops)
         return G.base_plan(self.prop, run_seed, actors, ops, clock=G.gen_clock(rng))
+
+    def cases(self, rng, tier, run_seed, idx=0):
+        if tier == "thorough" and idx % 1500 == 77:
+            # very long driver-stepped histories (5-16 thousand trials, N=1..2) on plateau-rich and ordinary objectives:
+            # thousands of consecutive iterations without a change of M or z* (a characteristics queue that silently
+            # loses entries, e.g. a bounded one, only shows then)
+            N = rng.choice([1, 1, 2])
+            lower, upper = objectives.gen_box(rng, N, kind=rng.choice(["unit", "sym", "asym"]))
+            fam = rng.choice([["step"], ["step"], ["lattice"], ["const"], ["const"], ["cones"], ["sines"]])
+            spec = {"kind": "solver", "objective": objectives.gen_spec(rng, N, lower, upper, fam), "lower": lower, "upper": upper,
+                    "params": {"r": G.gen_r(rng), "eps": 1e-9, "itersLimit": 20000, "evolventDensity": 10 if N == 1 else 12,
+                               "refineSolution": False}, "listeners": []}
+            total = rng.randint(5000, 16000)
+            ops = [{"a": "S0", "op": "create"}] + [{"a": "S0", "op": "iterate", "k": k} for k in G.gen_batches(rng, total, style="mixed")]
+            yield G.base_plan(self.prop, run_seed, {"S0": spec}, ops, clock=G.gen_clock(rng), long_run=total)
+            return
+        yield self.gen_plan(rng, tier, run_seed)
 
     def nontrivial_key(self, plan, w):
         a = w.actors["S0"]
@@ -179,8 +212,23 @@ class C03(SolverSuite):
         if rng.random() < 0.1:
             ops.append({"a": "S0", "op": "iterate", "k": rng.randint(1, 5)})
             ops.append({"a": "S0", "op": "solve"})
+        ops = G.sprinkle_evq(rng, ops, "S0", spec, prob=0.1)
         plan = G.base_plan(self.prop, run_seed, {"S0": spec}, ops, clock=G.gen_clock(rng))
         plan["edge"] = edge
+        if rng.random() < 0.12:
+            # fault configuration: the objective raises once - inside a DoGlobalIteration batch (the caller catches it) or
+            # inside Solve (contained) - and the caller goes on to Solve: the budget must still bind
+            spec["params"]["refineSolution"] = False
+            if rng.random() < 0.7:
+                spec["params"]["eps"] = G.EPS_MIN[spec["objective"]["N"]]
+            lim = spec["params"]["itersLimit"]
+            pre_b = G.gen_batches(rng, rng.randint(2, max(2, min(lim, 30))), style=rng.choice(["small", "mixed", "big"]))
+            ops = [{"a": "S0", "op": "create"}] + [{"a": "S0", "op": "iterate", "k": k} for k in pre_b]
+            ops += [{"a": "S0", "op": "solve"}] + ([{"a": "S0", "op": "solve"}] if rng.random() < 0.3 else [])
+            plan["ops"] = ops
+            plan["faults"] = [{"a": "S0", "at_eval": rng.randint(1, sum(pre_b) + 3), "exc": rng.choice(["ValueError", "KeyboardInterrupt", "SimFault"]),
+                               "when": rng.choice(["before", "after"]), "persistent": False, "noargs": rng.random() < 0.3}]
+            plan["continue_after_fault"] = True
         return plan
 
     def _edge(self, rng, spec, L):
@@ -252,6 +300,7 @@ class C04(SolverSuite):
         ops = G.gen_single_ops(rng, "S0", pre, with_solve=rng.random() < 0.8, results_prob=0.4,
                                after_solve_iters=rng.choice([0, rng.randint(1, 8)]), refine_ops=rng.random() < 0.2)
         actors = {"S0": spec}
+        ops = G.sprinkle_evq(rng, ops, "S0", spec)
         ops = _maybe_company(rng, actors, ops)
         plan = G.base_plan(self.prop, run_seed, actors, ops, clock=G.gen_clock(rng))
         if "S1" in actors and rng.random() < 0.5:
@@ -290,6 +339,13 @@ class C05(SolverSuite):
                                refine_ops=rng.random() < 0.5)
         if rng.random() < 0.15:
             ops.append({"a": "S0", "op": "solve"})
+        if rng.random() < 0.2:
+            # refine, search on (possibly into a deeper basin), refine again
+            for k in G.gen_batches(rng, rng.randint(1, 25)):
+                ops.append({"a": "S0", "op": "iterate", "k": k})
+            ops.append({"a": "S0", "op": rng.choice(["refine", "solve"]), "n": rng.choice([-1, 5, 50])})
+            ops.append({"a": "S0", "op": "results"})
+        ops = G.sprinkle_evq(rng, ops, "S0", spec)
         return transient_fault_then_continue(rng, G.base_plan(self.prop, run_seed, {"S0": spec}, ops, clock=G.gen_clock(rng)), prob=0.15)
 
     def nontrivial_key(self, plan, w):
@@ -321,6 +377,7 @@ class C06(SolverSuite):
         ops = G.gen_single_ops(rng, "S0", pre, with_solve=rng.random() < 0.8, results_prob=0.1,
                                after_solve_iters=rng.choice([0, rng.randint(1, 8)]), refine_ops=rng.random() < 0.15)
         actors = {"S0": spec}
+        ops = G.sprinkle_evq(rng, ops, "S0", spec)
         ops = _maybe_company(rng, actors, ops)
         plan = G.base_plan(self.prop, run_seed, actors, ops, clock=G.gen_clock(rng))
         if "S1" in actors and rng.random() < 0.5:
@@ -357,7 +414,21 @@ class C20(SolverSuite):
             spec["params"]["eps"] = G.EPS_MIN[spec["objective"]["N"]]
         pre = rng.choice([0, rng.randint(0, L)])
         ops = G.gen_single_ops(rng, "S0", pre, with_solve=True, results_prob=0.05)
-        return transient_fault_then_continue(rng, G.base_plan(self.prop, run_seed, {"S0": spec}, ops, clock=G.gen_clock(rng)), prob=0.25, hi=L)
+        ops = G.sprinkle_evq(rng, ops, "S0", spec, prob=0.2)
+        actors = {"S0": spec}
+        if rng.random() < 0.3:
+            # company: solvers (or a bare construction) with OTHER densities whose lifetimes overlap with S0's
+            for j in range(1, rng.choice([2, 2, 3])):
+                m1 = rng.choice([d for d in range(2, 13) if d != m])
+                aid = "S%d" % j
+                L1 = rng.randint(3, 25)
+                actors[aid] = G.gen_actor(rng, max_iters=L1, dims=(2, 3, 4, 5), shipped_prob=0.0, refine=False, density=m1,
+                                          small_iters_prob=0.0, eps_big_prob=0.05)
+                actors[aid]["params"]["itersLimit"] = L1
+                ops1 = G.gen_single_ops(rng, aid, rng.choice([0, rng.randint(0, L1)]), with_solve=rng.random() < 0.7) if rng.random() < 0.8 \
+                    else [{"a": aid, "op": "create"}]
+                ops = interleave(rng, [ops, ops1])
+        return transient_fault_then_continue(rng, G.base_plan(self.prop, run_seed, actors, ops, clock=G.gen_clock(rng)), prob=0.25, hi=L)
 
     def nontrivial_key(self, plan, w):
         a = w.actors["S0"]
